@@ -7,6 +7,10 @@ TB = ('Lean 4.33 kernel (+ leanchecker in the thorough tier); axioms propext, Cl
       'the C->Lean translator extract/translate.py (validated against the compiled functions on every run); ')
 CLAIMED = {
     # id: (technique, level text, level note, design ref)
+    'C16': ('Lean 4 theorems over definitions regenerated from the C source by a translator (validated against the compiled functions)',
+            'Every statement of the property (block size >= request, monotone bins, <=25% fragmentation, good_size idempotent, interior pointer -> block start, pointer -> segment, fast division, span bins, align/divide/overflow helpers) is a Lean theorem, for all inputs, about definitions that extract/translate.py regenerates from /repo/src on every run; the translator is validated on ~370k inputs against the compiled functions; an exhaustive C oracle searches the failing input when a theorem stops checking.',
+            TB + 'builtin semantics of clz/ctz/umull_overflow; release configuration; mi_good_size = usable size of mi_malloc is checked by the oracle on the real allocator (exhaustive up to 1100, sampled above), not proved.',
+            'DESIGN.md §4 C16'),
 }
 NOT_YET = 'check not built yet (work in progress in this session; see DESIGN.md §12 implementation order)'
 def main():
